@@ -15,6 +15,8 @@ EXPLANATION = (
     "Header::request validates authority/Host agreement before anything is sent, Pseudo::request/response populate only "
     "the role's pseudo fields from the caller's values and replace the caller's path only when it is empty. The http "
     "crate's validators are trusted.")
+# every anchor of these rules lives in the h3 crate: thorough tier repeats them on the feature-less build
+EXTRA_CONFIGS = ["h3-plain"]
 RULES = "C12-a field gate (A11/A2); C12-b message gates (A3/A2); C12-c refusal class (A3); C12-d sending order and values (A2/A4)"
 
 H = "h3::proto::headers::"
